@@ -3,7 +3,7 @@
 from dataclasses import dataclass, field
 from typing import Optional
 
-from . import astutil, oracle
+from . import astutil, findings, oracle
 from .core import Case, OptOutcome, case_hash, make_preds, run_optimize, sigs_of
 from .trace import PASS_CLASSES
 
@@ -37,6 +37,7 @@ class Outcome:
     nontrivial_instances: int = 0
     discards: list = field(default_factory=list)  # per-instance discard reasons
     failure: Optional[dict] = None
+    known: list = field(default_factory=list)  # ids of open findings hit on some instance (evaluation continued)
     opt: Optional[OptOutcome] = None
     result_text: str = ""
 
@@ -152,15 +153,20 @@ def evaluate(case: Case, spec: SemSpec, tier: str = "quick", opt_timeout: float 
             continue
         b = oracle.solve(opt.text, inst, case.consts, 4 * limit)
         if b.status == "error":
-            if spec.rejected_is_violation:
+            failure = {
+                "kind": "result_rejected",
+                "detail": b.error_text(),
+                "instance": inst,
+                "result_text": opt.text,
+                "attribution": attribute(opt, inst, case.consts, in_sigs | out_sigs, spec.costs, spec.bijection, limit),
+            }
+            fid = findings.match(spec.pid, case.to_json(), failure)
+            if fid:
+                out.known.append(fid)  # a recorded finding: count it and keep comparing the other instances
+                continue
+            if spec.rejected_is_violation or (spec.focus and failure["attribution"].get("pass") == spec.focus):
                 out.status = "fail"
-                out.failure = {
-                    "kind": "result_rejected",
-                    "detail": b.error_text(),
-                    "instance": inst,
-                    "result_text": opt.text,
-                    "attribution": attribute(opt, inst, case.consts, in_sigs | out_sigs, spec.costs, spec.bijection, limit),
-                }
+                out.failure = failure
                 return out
             out.discards.append("result_rejected")
             continue
@@ -170,14 +176,19 @@ def evaluate(case: Case, spec: SemSpec, tier: str = "quick", opt_timeout: float 
         out.comparisons += 1
         diff = oracle.compare(a, b, sigs, shown, spec.costs, spec.bijection)
         if diff is not None:
-            out.status = "fail"
-            out.failure = {
+            failure = {
                 "kind": diff.kind,
                 "detail": diff.detail,
                 "instance": inst,
                 "result_text": opt.text,
                 "attribution": attribute(opt, inst, case.consts, in_sigs | out_sigs, spec.costs, spec.bijection, limit),
             }
+            fid = findings.match(spec.pid, case.to_json(), failure)
+            if fid:
+                out.known.append(fid)  # a recorded finding: count it and keep comparing the other instances
+                continue
+            out.status = "fail"
+            out.failure = failure
             return out
         nontriv = changed and len(a.models) >= spec.min_models
         if nontriv and spec.need_cost:
